@@ -96,6 +96,44 @@ func pspBinary(r *rand.Rand, signer *rsa.PrivateKey, signerID []byte, body []byt
 	return
 }
 
+// pspBinaryShifted lays a binary out like pspBinary but signs a range that is `shift` (±16) bytes
+// longer / shorter than the documented covered range, the signature sitting right behind what was
+// actually signed (compressed) or at SizeImage − |signature| (uncompressed, gap ≥ 16 for +16).
+// The header still announces the documented sizes, so a verifier that derives exactly the
+// documented range must not accept it.  signedEnd / sigStart are the *documented* positions.
+func pspBinaryShifted(r *rand.Rand, signer *rsa.PrivateKey, signerID []byte, body []byte, compressed bool, shift int) (raw []byte, signedEnd, sigStart int) {
+	hdr := randBytes(r, 0x100)
+	copy(hdr[56:72], signerID)
+	sigLen := (signer.N.BitLen() + 7) / 8
+	if compressed {
+		binary.LittleEndian.PutUint32(hdr[72:], 1+uint32(r.Intn(3)))
+		binary.LittleEndian.PutUint32(hdr[84:], uint32(len(body)))
+		binary.LittleEndian.PutUint32(hdr[20:], 1+r.Uint32()%1000)
+		binary.LittleEndian.PutUint32(hdr[108:], 1+r.Uint32()%1000)
+		pad := (16 - len(body)%16) % 16
+		raw = append(append(clone(hdr), body...), randBytes(r, pad)...)
+		signedEnd = len(raw)
+		sigStart = signedEnd
+		if shift > 0 {
+			raw = append(raw, randBytes(r, shift)...)
+		} else {
+			raw = raw[:len(raw)+shift]
+		}
+		raw = append(raw, pssSign(signer, raw)...)
+		return
+	}
+	gap := 16 + r.Intn(16)
+	binary.LittleEndian.PutUint32(hdr[72:], 0)
+	binary.LittleEndian.PutUint32(hdr[20:], uint32(len(body)))
+	binary.LittleEndian.PutUint32(hdr[108:], uint32(0x100+len(body)+gap+sigLen))
+	raw = append(clone(hdr), body...)
+	signedEnd = len(raw)
+	raw = append(raw, randBytes(r, gap)...)
+	sigStart = len(raw)
+	raw = append(raw, pssSign(signer, raw[:signedEnd+shift])...)
+	return
+}
+
 // dbEntry: one key of the key database.
 func dbEntry(id []byte, usage uint32, pub *rsa.PublicKey, slack int) []byte {
 	w := (pub.N.BitLen() + 7) / 8
@@ -421,6 +459,10 @@ func runTokenKey(x *run, a map[string]string, thorough bool) {
 	}
 	x.M("tokenkey", req(raw), res)
 	x.out.Class = "tokenkey:" + strings.SplitN(res, " ", 2)[0]
+	if a["layout"] == "exact" {
+		// oracle: a token signed over exactly its key material by a key of the set is accepted
+		x.OSig("covered-range-exact", "covered-range-exact:token", "ok", strings.SplitN(res, " ", 2)[0])
+	}
 	if !ok {
 		return
 	}
@@ -542,6 +584,21 @@ func runPSPEntry(x *run, a map[string]string, thorough bool) {
 	res := callPSPEntry(clone(img), ks, off, ln)
 	x.M("pspentry", req(img), res)
 	x.out.Class = "pspentry:" + a["conv"] + ":" + res
+	// oracle (the covered range is part of the property): a binary the harness laid out as the
+	// format documents and signed with a real key over exactly the documented covered range is
+	// accepted; the same binary signed over a range 16 bytes longer / shorter is not
+	switch a["layout"] {
+	case "exact":
+		x.OSig("covered-range-exact", "covered-range-exact:"+a["conv"], "ok", res)
+		x.out.Class += ":exact"
+	case "shifted":
+		got := "not ok"
+		if res == "ok" {
+			got = "ok although the signature covers a range 16 bytes off the documented one"
+		}
+		x.OSig("covered-range-exact", "covered-range-shifted:"+a["conv"], "not ok", got)
+		x.out.Class += ":shifted"
+	}
 	if res != "ok" {
 		return
 	}
@@ -699,6 +756,11 @@ func runFirmware(x *run, a map[string]string, thorough bool) {
 	}
 	keys, rtm, after := fwRun(img, level)
 	x.out.Class = c16kind(a) + ":L" + a["level"] + ":keys=" + strings.SplitN(keys, " ", 2)[0] + ",rtm=" + rtm
+	if a["covered"] != "" {
+		// oracle: a firmware whose key chain and RTM volume are signed over exactly the documented
+		// ranges (and whose layout keeps ValidateRTM's in-place append harmless) validates
+		x.OSig("covered-range-exact", "covered-range-exact:firmware", "ok ok", strings.SplitN(keys, " ", 2)[0]+" "+rtm)
+	}
 
 	// the entries as fiano's directory parser (property C17) located them
 	rootO, rootL, ok1 := entryRange(fw, 1, false, 0x00)
@@ -1186,7 +1248,11 @@ func genPsb(g *gen, scale int) {
 			raw[len(raw)-1-r.Intn(200)] ^= 1
 			kind = "token-bad-signature"
 		}
-		g.add(kind, "tokenkey", "raw", core.Hex(raw), "keyset", showKS2(es), "mseed", itoa(r.Intn(1<<30)))
+		layout := ""
+		if kind == "token-valid" || kind == "token-trailing" {
+			layout = "exact" // header ‖ exponent ‖ modulus signed by a key of the set, signature reversed behind it
+		}
+		g.add(kind, "tokenkey", "raw", core.Hex(raw), "keyset", showKS2(es), "layout", layout, "mseed", itoa(r.Intn(1<<30)))
 	}
 
 	// PSP binaries: both size conventions, boundary values of every size field
@@ -1265,8 +1331,68 @@ func genPsb(g *gen, scale int) {
 				ln = 0
 			}
 		}
+		layout := ""
+		if kind == "psp-valid" || kind == "psp-valid-slack" {
+			layout = "exact"
+		}
 		g.add(kind, "pspentry", "img", core.Hex(bl.b), "off", itoa(off), "len", itoa(ln), "keyset", showKS2(es), "conv", conv,
-			"signedend", itoa(signedEnd), "sigstart", itoa(sigStart), "siglen", itoa(sigLen), "mseed", itoa(r.Intn(1<<30)))
+			"signedend", itoa(signedEnd), "sigstart", itoa(sigStart), "siglen", itoa(sigLen), "layout", layout, "mseed", itoa(r.Intn(1<<30)))
+	}
+
+	// the covered range, exactly: genuinely signed binaries in both conventions with sizes at and
+	// around multiples of 16 (the compressed convention rounds CompressedImageSize up to 16), and
+	// for each the two neighbours signed over a range 16 bytes longer / shorter
+	addRange := func(compressed bool, size, shift int) {
+		signer := keys[r.Intn(3)]
+		es := []ksEntry{{"root", tok(0xA1, signer)}}
+		body := randBytes(r, size)
+		var raw []byte
+		var signedEnd, sigStart int
+		kind, layout, conv := "psp-range-exact", "exact", "uncompressed"
+		if compressed {
+			conv = "compressed"
+		}
+		if shift == 0 {
+			gap := 0
+			if !compressed {
+				gap = g.pick(0, 0, 1, 15, 16, 17)
+			}
+			raw, signedEnd, sigStart = pspBinary(r, signer, keyID(0xA1), body, compressed, gap)
+		} else {
+			kind, layout = "psp-range-shifted", "shifted"
+			raw, signedEnd, sigStart = pspBinaryShifted(r, signer, keyID(0xA1), body, compressed, shift)
+		}
+		bl := &builder{}
+		bl.grow(74)
+		copy(bl.b, efs(0, 0))
+		off := bl.put(r, raw, 1+r.Intn(32), true)
+		bl.put(r, nil, 16+r.Intn(32), false)
+		ln := len(raw)
+		if shift != 0 || r.Intn(3) == 0 {
+			ln += r.Intn(len(bl.b) - off - ln + 1) // the directory entry may be larger than the binary
+		}
+		g.add(kind, "pspentry", "img", core.Hex(bl.b), "off", itoa(off), "len", itoa(ln), "keyset", showKS2(es), "conv", conv,
+			"signedend", itoa(signedEnd), "sigstart", itoa(sigStart), "siglen", itoa((signer.N.BitLen()+7)/8),
+			"layout", layout, "mseed", itoa(r.Intn(1<<30)))
+	}
+	cSizes := []int{0x10, 0x40, 0x100, 0x41, 0x4F, 0xFF, 0x20, 0x1F, 0x21}
+	uSizes := []int{15, 16, 17, 0x3F, 0x40, 0x41, 0xFF, 0x100, 0x101}
+	for rep := 0; rep < scale; rep++ {
+		for _, n := range cSizes {
+			addRange(true, n, 0)
+			if n >= 0x20 {
+				addRange(true, n, g.pick(16, -16))
+			}
+		}
+		addRange(true, 0x1000, 0)
+		addRange(true, 0x40, 16)
+		addRange(true, 0x100, 16)
+		for _, n := range uSizes {
+			addRange(false, n, 0)
+			if n > 16 {
+				addRange(false, n, g.pick(16, -16))
+			}
+		}
 	}
 
 	// whole firmware images: key chain and RTM volume
